@@ -164,3 +164,37 @@ Definition buf_unread_byte (s_buf : gslice) (s_off s_lastRead : Z) : bres err bs
   BOk (ENil) (s_buf, s_off, s_lastRead).
 Definition translated_buf_unread_byte := true.
 
+(* PrintCtx.WriteTo  (BOk results state | BRange state | BPanic v state) *)
+Definition buf_write_to (s_buf : gslice) (s_off s_lastRead : Z) (w : unit) (w_m : Z) (w_e : err) (tr_ : list bytes) : bres (Z * err) (bstate * list bytes) :=
+  let n := 0 in
+  let err := ENil in
+  let s_lastRead := 0 in
+  let nBytes := (buf_len s_buf s_off s_lastRead) in
+  if (0 <? nBytes)
+  then match sl_from s_buf s_off with
+    | None => BRange (s_buf, s_off, s_lastRead, tr_)
+    | Some r1_ => let '(m, e) := (w_m, w_e) in
+      let tr_ := tr_ ++ [sl_bytes r1_] in
+      if (nBytes <? m)
+      then BPanic [x6c;x6f;x67;x67;x2f;x73;x6c;x6f;x67;x2e;x50;x72;x69;x6e;x74;x43;x74;x78;x2e;x57;x72;x69;x74;x65;x54;x6f;x3a;x20;x69;x6e;x76;x61;x6c;x69;x64;x20;x57;x72;x69;x74;x65;x20;x63;x6f;x75;x6e;x74] (s_buf, s_off, s_lastRead, tr_)
+      else let s_off := (s_off + m) in
+      let n := m in
+      if (negb (err_is_enil e))
+      then BOk ((n, e)) (s_buf, s_off, s_lastRead, tr_)
+      else if (negb (m =? nBytes))
+      then BOk ((n, EShortWrite)) (s_buf, s_off, s_lastRead, tr_)
+      else match buf_reset s_buf s_off s_lastRead with
+      | BOk _ st_ => let '(s_buf, s_off, s_lastRead) := st_ in
+        BOk ((n, ENil)) (s_buf, s_off, s_lastRead, tr_)
+      | BRange st_ => let '(s_buf, s_off, s_lastRead) := st_ in BRange (s_buf, s_off, s_lastRead, tr_)
+      | BPanic p_ st_ => let '(s_buf, s_off, s_lastRead) := st_ in BPanic p_ (s_buf, s_off, s_lastRead, tr_)
+      end
+    end
+  else match buf_reset s_buf s_off s_lastRead with
+    | BOk _ st_ => let '(s_buf, s_off, s_lastRead) := st_ in
+      BOk ((n, ENil)) (s_buf, s_off, s_lastRead, tr_)
+    | BRange st_ => let '(s_buf, s_off, s_lastRead) := st_ in BRange (s_buf, s_off, s_lastRead, tr_)
+    | BPanic p_ st_ => let '(s_buf, s_off, s_lastRead) := st_ in BPanic p_ (s_buf, s_off, s_lastRead, tr_)
+    end.
+Definition translated_buf_write_to := true.
+
